@@ -18,6 +18,7 @@ EXPLANATION = (
     "per alias in order (C08-R5 / C07 instances); C14-R5 pairs every load of itertools / importlib / "
     "__ol_iter_wrapper with setting the use_* flag on the same path and with the bootstrap binding "
     "that PendingModule inserts at the head of the output."
+    ' C14-R1 asks for the attribute path from the top package for aliased dotted imports (IMPORT_FROM semantics). C14-R6: from-import has the sys.modules fallback. C06-R4 (shared): where nested scopes find a name bound by an import.'
 )
 ASSUMPTIONS = ["the import system's effects (sys.modules, relative resolution) given the same arguments are CPython's"]
 
